@@ -8,6 +8,7 @@ removes every fd it still had registered.  The table itself is compared with the
 -/
 import Verif.Inv.Kernel
 import Verif.Model.Loop
+import Verif.Inv.GhostFree
 
 namespace Verif.Props.C16
 open Verif.Kernel Verif.Loop
@@ -83,5 +84,35 @@ theorem drop_releases_fds (gs : List Gen) (k : Kernel) :
         | error e => simp only; exact ih k x h hp
         | ok k2 => simp only; exact ih k2 x h hp
       · exact ih k x h hp
+
+/-! ### the whole loop -/
+
+/-- **After every history** of operations, callback programs, failures and dispatches that was not aborted by a panic —
+    registrations failing half-way with or without roll-back, failing unregistrations, sources removed or disabled from
+    inside callbacks, dispatchers dropped while registered, two sources over one fd (finding F15) — every entry of the
+    kernel's poller table belongs to a live sub-source that holds its poller reference: **no ghost registration**. -/
+theorem no_ghost_registration (ops : List Verif.Loop.Op) (hab : (Verif.Loop.run ops).aborted = false) :
+    ∀ e ∈ (Verif.Loop.run ops).k.ep, ∃ k src g, Verif.Loop.alookup (Verif.Loop.run ops).srcs k = some src ∧
+      g ∈ src.gens ∧ g.fd = e.fd ∧ g.poller = true :=
+  Verif.Inv.GhostFree.no_ghost_registration ops hab
+
+/-- … so an fd all of whose sub-sources have let go of the poller (unregistered, or dropped: `Generic::drop`) is not in
+    the table: it can be inserted again and no ghost event arrives for it. -/
+theorem released_fd_not_registered (ops : List Verif.Loop.Op) (hab : (Verif.Loop.run ops).aborted = false) (fd : Nat)
+    (hrel : ∀ k src g, Verif.Loop.alookup (Verif.Loop.run ops).srcs k = some src → g ∈ src.gens → g.fd = fd → g.poller = false) :
+    fd ∉ (Verif.Loop.run ops).k.ep.map (·.fd) :=
+  Verif.Inv.GhostFree.released_fd_not_registered ops hab fd hrel
+
+/-- non-vacuity: a composite source whose third registration fails and which does not roll back (two entries stay in
+    the table, owned by the object handed back to the user), a ping source inserted, disabled and removed, a generic
+    source over a user fd inserted twice (the second insertion is refused) -/
+def ghostHistory : List Verif.Loop.Op :=
+  [.c (.newCustom 1 3 false), .c (.plan 1 { regFail := some 2, rollback := false }), .c (.insert 1),
+   .c (.newPing 2), .c (.insert 2), .c (.disable 2), .c (.remove 2),
+   .c (.fd 7), .c (.newGen 3 7 true false .level), .c (.insert 3), .c (.newGen 4 7 true false .level), .c (.insert 4),
+   .dispatch]
+
+example : (Verif.Loop.run ghostHistory).aborted = false ∧
+    ((Verif.Loop.run ghostHistory).k.ep.map (·.fd)) = [1000, 1001, 7] := by decide +kernel
 
 end Verif.Props.C16
